@@ -262,6 +262,7 @@ class AesRules:
         allw = set()
         I = interp.Interp(prog, listeners=[Lst()], models=dict(models.STD_MODELS))
         I.join_conditionals = True
+        I.concrete_loops = True
         st = interp.State()
         self.rk_install(st, OBJ, (km,))
         res = I.run(f, st, this=P(OBJ, ()), args=[P(BLK, (0,))])
